@@ -91,7 +91,8 @@ def interface_cells(path, info):
     """The cells an interface separates: cells containing an interior vertex, or both ends for 2-point ones."""
     cov = info["cov"]
     if len(path) == 2:
-        return set(cov.get(path[0], set())) & set(cov.get(path[1], set()))
+        # the cells that have this mesh edge as a side (a third cell may touch both ends without owning the edge)
+        return set(info["edge_cells"].get(frozenset(path), set()))
     s = None
     for v in path[1:-1]:
         s = set(cov.get(v, set())) if s is None else s & set(cov.get(v, set()))
